@@ -213,7 +213,11 @@ func runC08(c *Ctx) {
 	if f := c.A.Func("(*Conn).handleBdat"); f != nil {
 		_, s2 := c.Std()
 		nP := 0
-		for _, site := range s2.Find(f, "reply:dyn") {
+		var dynSites []ssa.Instruction
+		for _, g := range c.withHelpers(f) {
+			dynSites = append(dynSites, s2.Find(g, "reply:dyn")...)
+		}
+		for _, site := range dynSites {
 			cc := callCommon(site)
 			ex, ok := stripConv(cc.Args[1]).(*ssa.Extract)
 			if !ok {
@@ -229,7 +233,7 @@ func runC08(c *Ctx) {
 			}
 			nP++
 			site := site
-			c.obFollowH("panic verdict then Close", f, func(in ssa.Instruction) bool { return in == site }, []string{lClose}, src+" == errPanic")
+			c.obFollowH("panic verdict then Close", site.Parent(), func(in ssa.Instruction) bool { return in == site }, []string{lClose}, src+" == errPanic")
 		}
 		R.Ob("(*Conn).handleBdat/computed final replies found", c.P.Pos(f.Pos()), nP >= 2, fmt.Sprintf("%d", nP))
 	}
@@ -268,7 +272,11 @@ func ruleResultOnEveryExit(c *Ctx) {
 	if f := c.A.Func("(*Conn).handleBdat"); f != nil {
 		_, sm := c.Std()
 		nW := 0
-		for _, site := range sm.Find(f, "chan-recv:Conn.dataResult") {
+		var waitSites []ssa.Instruction
+		for _, g := range c.withHelpers(f) {
+			waitSites = append(waitSites, sm.Find(g, "chan-recv:Conn.dataResult")...)
+		}
+		for _, site := range waitSites {
 			nW++
 			seen := sm.SeenBefore(site)
 			R.Ob(c.siteKey(site, "result awaited only after the pipe is closed"), c.P.InstrPos(site), seen["pipe-close-clean"] || seen["pipe-abort"], "the handler waits for the delivery result on a path where the BDAT pipe is still open: the backend waits for end-of-file and the handler for the backend")
